@@ -1,4 +1,6 @@
 import RtenVerif.Lemmas.ExecutorRun
+import RtenVerif.Lemmas.ExecutorOrderMain
+import RtenVerif.Lemmas.ExecutorCaps
 import RtenVerif.Lemmas.PlannerSpec
 /-!
 # C02 — Run results are independent of execution strategy
@@ -24,12 +26,13 @@ Proved: T1 (counters, with the exact `u8` behaviour), T2 (nothing that still has
 `temp_values`), T3 (outcome = naive evaluation: same outputs, or the same error class at
 the same operator, or the same panic), T4 (borrowed inputs and constants are never in
 `temp_values`, in-place operands come from `temp_values`), independence of pool / reference
-mode / owned-vs-borrowed split.  Not proved here: independence of the *order* of the plan
-(needs single assignment; see the end of the file), thread count and prepacking (outside
+mode / owned-vs-borrowed split, independence of the plan order for graphs with unique
+producers (`c02_plan_independent`), and T1/T2/T4 for runs with any capture environment
+(`c02_caps_*`).  Not proved: T3 for runs with captures; thread count and prepacking (outside
 the model: operator kernels).
 -/
 namespace RtenVerif.Executor
-open RtenVerif.Graph
+open RtenVerif.Graph RtenVerif.Planner
 
 /-! ## Reachable states -/
 
@@ -392,11 +395,136 @@ theorem c02_fixed_owned_vs_borrowed :
 
 /-! ## Plan order
 
-The property's last clause ("in any topological order") follows from T3 once the naive
-evaluation itself is order-independent, which needs every id to be produced by at most one
-planned operator (true of graphs loaded from model files; `Graph::add_op` does not enforce
-it).  That lemma is not proved here.  Without single assignment the naive result (and the
-executor's) does depend on the order: -/
+The naive evaluation of a plan that runs without error does not depend on the order of the
+plan, provided distinct entries write disjoint ids (single assignment: every graph with unique
+producers) and both orders respect the dependencies (C03's `ValidIds`).  With T3 this carries
+over to `run_plan`. -/
+
+/-- **Order independence, `ValidIds` form.** Two dependency-respecting plans with the same
+entries: if `run_plan` succeeds on one, it succeeds on the other with the same outputs. -/
+theorem c02_order_independent {V : Type} {ops : Ops V} {r : Run V} {ins outs p p' : List Nat}
+    {vals : List V} (hwf : WF r) (hcap : r.g.captures = []) (hct : Contract ops r.g)
+    (hin : ∀ d ∈ ins, r.isInput d = true) (hnd : outs.Nodup)
+    (hpnd : p.Nodup) (hdisj : Disj r.g p)
+    (hv : RtenVerif.Planner.ValidIds r.g false ins p)
+    (hv' : RtenVerif.Planner.ValidIds r.g false ins p') (hsame : ∀ i, i ∈ p ↔ i ∈ p')
+    (h : (runPlan ops r nocap p outs).outcome = .ok vals) :
+    (runPlan ops r nocap p' outs).outcome = .ok vals := by
+  have hops : ∀ {q : List Nat}, RtenVerif.Planner.ValidIds r.g false ins q →
+      ∀ i ∈ q, (getOp r.g i).isSome = true := by
+    intro q hq i hi
+    obtain ⟨pre, post, hsplit⟩ := List.append_of_mem hi
+    obtain ⟨op, hop, _⟩ := RtenVerif.Planner.validIds_split hq hsplit
+    rw [hop]; rfl
+  rw [c02_T3_refinement hwf hcap hct (hops hv) hnd] at h
+  rw [c02_T3_refinement hwf hcap hct (hops hv') hnd]
+  exact evalNaive_order hpnd hdisj hv hv' hin hsame h
+
+/-- **Plan independence (the `PlanIndependent` hypothesis of C22 / `CacheTransparent` of C25).**
+On a graph with unique producers, any two plans that satisfy C03's `PlanOK` for the same
+request — e.g. the plans `create_plan` returns for the same id sets before and after the
+cached plan was replaced — are interchangeable: if `run_plan` returns outputs with one, it
+returns the same outputs with the other.  (When an operator fails, both runs fail, but
+possibly at different operators: `c02_error_depends_on_order`.) -/
+theorem c02_plan_independent {V : Type} {ops : Ops V} {r : Run V} {ins outs p p' : List Nat}
+    {vals : List V} (hwf : WF r) (hcap : r.g.captures = []) (hct : Contract ops r.g)
+    (hu : UniqueProducer r.g) (hin : ∀ d ∈ ins, r.isInput d = true) (hnd : outs.Nodup)
+    (hp : RtenVerif.Planner.PlanOK r.g false (RtenVerif.Planner.resolvedNew r.g ins false) outs p)
+    (hp' : RtenVerif.Planner.PlanOK r.g false (RtenVerif.Planner.resolvedNew r.g ins false) outs p')
+    (h : (runPlan ops r nocap p outs).outcome = .ok vals) :
+    (runPlan ops r nocap p' outs).outcome = .ok vals := by
+  have e : RtenVerif.Planner.resolvedNew r.g ins false = ins := by
+    simp [RtenVerif.Planner.resolvedNew]
+  rw [e] at hp hp'
+  exact c02_order_independent hwf hcap hct hin hnd hp.nodup (disj_of_uniqueProducer hu p)
+    hp.valid hp'.valid
+    (fun i => (planOK_mem_iff_needed hu hp i).trans (planOK_mem_iff_needed hu hp' i).symm) h
+
+/-- Symmetric form: the two runs succeed together, with equal outputs. -/
+theorem c02_plan_independent_iff {V : Type} {ops : Ops V} {r : Run V} {ins outs p p' : List Nat}
+    (hwf : WF r) (hcap : r.g.captures = []) (hct : Contract ops r.g)
+    (hu : UniqueProducer r.g) (hin : ∀ d ∈ ins, r.isInput d = true) (hnd : outs.Nodup)
+    (hp : RtenVerif.Planner.PlanOK r.g false (RtenVerif.Planner.resolvedNew r.g ins false) outs p)
+    (hp' : RtenVerif.Planner.PlanOK r.g false (RtenVerif.Planner.resolvedNew r.g ins false) outs p')
+    (vals : List V) :
+    (runPlan ops r nocap p outs).outcome = .ok vals ↔
+      (runPlan ops r nocap p' outs).outcome = .ok vals :=
+  ⟨c02_plan_independent hwf hcap hct hu hin hnd hp hp',
+   c02_plan_independent hwf hcap hct hu hin hnd hp' hp⟩
+
+/-- `0:x 1:a 2:b  3: a = F(x)  4: b = G(x)`, both operators fail. -/
+def twoFailing : Graph :=
+  { nodes := [.value, .value, .value,
+      .operator { inputs := [some 0], outputs := [some 1] },
+      .operator { inputs := [some 0], outputs := [some 2] }] }
+
+/-- Full equality of outcomes across plan orders is false when operators fail: the run stops
+at the first failing operator, and which one is first depends on the order. -/
+theorem c02_error_depends_on_order :
+    let ops : Ops Nat :=
+      { len := fun _ => 1, inPlaceIdx := fun _ => [], isSubgraph := fun _ => false
+        run := fun _ _ _ => none, runInPlace := fun _ _ _ => none }
+    let r : Run Nat := { g := twoFailing, consts := fun _ => 0
+                         borrowed := fun v => if v = 0 then some 10 else none, owned := fun _ => none }
+    (runPlan ops r nocap [3, 4] [1, 2]).outcome = .error (.opErr 3) ∧
+    (runPlan ops r nocap [4, 3] [1, 2]).outcome = .error (.opErr 4) := by
+  decide
+
+theorem twoFailing_valid34 : ValidIds twoFailing false [0] [3, 4] := by
+  refine ⟨⟨_, rfl, ?_⟩, ⟨_, rfl, ?_⟩, trivial⟩ <;>
+  · intro d hd
+    have : d = 0 := by simpa [opDeps, opInputs] using hd
+    subst this
+    exact Or.inl (by decide)
+
+theorem twoFailing_valid43 : ValidIds twoFailing false [0] [4, 3] := by
+  refine ⟨⟨_, rfl, ?_⟩, ⟨_, rfl, ?_⟩, trivial⟩ <;>
+  · intro d hd
+    have : d = 0 := by simpa [opDeps, opInputs] using hd
+    subst this
+    exact Or.inl (by decide)
+
+theorem twoFailing_disj : Disj twoFailing [3, 4] := by
+  intro i hi j hj hne v hvi hvj
+  simp only [List.mem_cons, List.not_mem_nil, or_false] at hi hj
+  rcases hi with rfl | rfl <;> rcases hj with rfl | rfl
+  · exact hne rfl
+  · simp [outsOf, getOp, getNode, twoFailing, opOutputs] at hvi hvj; omega
+  · simp [outsOf, getOp, getNode, twoFailing, opOutputs] at hvi hvj; omega
+  · exact hne rfl
+
+/-- Operators that succeed on the graph `twoFailing` (two independent operators). -/
+def okOps : Ops Nat :=
+  { len := fun _ => 1, inPlaceIdx := fun _ => [], isSubgraph := fun _ => false
+    run := fun i _ _ => some [i], runInPlace := fun i _ _ => some [i] }
+
+def twoRun : Run Nat :=
+  { g := twoFailing, consts := fun _ => 0
+    borrowed := fun v => if v = 0 then some 10 else none, owned := fun _ => none }
+
+theorem twoRun_wf : WF twoRun := by
+  refine ⟨rfl, fun v hv => absurd rfl hv, fun v hv => absurd rfl hv, ?_⟩
+  intro i op hop o ho
+  have hi : i < 5 := by
+    unfold getOp getNode at hop
+    by_cases hi : i < 5
+    · exact hi
+    · have : twoRun.g.nodes[i]? = none := by
+        apply List.getElem?_eq_none; simp [twoRun, twoFailing]; omega
+      rw [this] at hop; simp at hop
+  have : i = 0 ∨ i = 1 ∨ i = 2 ∨ i = 3 ∨ i = 4 := by omega
+  rcases this with rfl | rfl | rfl | rfl | rfl <;>
+    simp [getOp, getNode, twoRun, twoFailing] at hop <;> subst hop <;>
+    simp [opOutputs] at ho <;> subst ho <;> rfl
+
+/-- Non-vacuity of `c02_order_independent`: both orders of two independent operators. -/
+example : (runPlan okOps twoRun nocap [4, 3] [1, 2]).outcome = .ok [3, 4] :=
+  c02_order_independent (ins := [0]) twoRun_wf rfl
+    ⟨fun _ => List.nodup_nil, fun _ h => absurd rfl h, fun _ _ _ _ _ _ _ _ _ => rfl⟩
+    (by intro d hd; simp at hd; subst hd; rfl) (by decide) (by decide) twoFailing_disj
+    twoFailing_valid34 twoFailing_valid43 (by intro i; simp; omega) (by decide)
+
+/-! Without single assignment the naive result (and the executor's) does depend on the order: -/
 
 /-- `0:x 1:y 2:z  3: y = A(x)  4: y = B(x)  5: z = R(y)`: two producers of `y`. -/
 def twoProducers : Graph :=
@@ -418,5 +546,50 @@ theorem c02_order_needs_single_assignment :
                          borrowed := fun v => if v = 0 then some 10 else none, owned := fun _ => none }
     evalNaive ops r nocap [3, 4, 5] [2] = .ok [12] ∧ evalNaive ops r nocap [4, 3, 5] [2] = .ok [11] := by
   decide
+
+/-! ## Runs with a capture environment (bodies of `If` / `Loop`)
+
+T3 above is for runs without captures.  The bookkeeping invariants hold for **every** capture
+environment `caps0` (values of the enclosing scope, some of them takeable): -/
+
+/-- **T1 / T4 with captures.** After any prefix of the plan, whatever the capture environment:
+counters fit a `u8`, every value node's counter is its number of remaining uses (or 255
+forever), and `temp_values` holds only value nodes that are neither constants nor borrowed
+inputs. -/
+theorem c02_caps_invariants {V : Type} {ops : Ops V} {r : Run V} {pre rest outs : List Nat}
+    {rc : Nat → Nat} {st : St V} (caps0 : Nat → Option (V × Bool)) (hwf : WF r)
+    (hrc : initRc r.g (pre ++ rest) outs = some rc)
+    (hrun : (runSteps ops r { temps := initTemps r, rc := rc, caps := caps0 } pre).1 = .ok st) :
+    RcBounded st.rc ∧
+      (∀ v, isValue r.g v = true →
+        st.rc v = if 255 ≤ uses r.g (pre ++ rest) outs v then 255 else uses r.g rest outs v) ∧
+      TempsKind r st := by
+  have hb : RcBounded rc := by intro v; rw [initRc_eq hrc v]; omega
+  have hi : RcInv r.g (uses r.g (pre ++ rest) outs) (pre ++ rest) outs rc := by
+    intro v _
+    refine ⟨?_, Nat.le_refl _⟩
+    rw [initRc_eq hrc v]; split <;> omega
+  have hk : TempsKind r { temps := initTemps r, rc := rc, caps := caps0 } := by
+    intro x hx
+    simp only [initTemps, hwf.fixed, Bool.true_and] at hx
+    split at hx
+    · exact absurd rfl hx
+    · rename_i hnc
+      have hnc' : isConstant r.g x = false := by simpa using hnc
+      have hv := isValue_of_voc (hwf.ownedKind x hx) hnc'
+      exact ⟨hv, hnc', hwf.disjoint x hx⟩
+  obtain ⟨h1, h2, h3⟩ := runSteps_caps_inv hwf rest pre _ st hb hi hk hrun
+  exact ⟨h1, fun v hv => (h2 v hv).1, h3⟩
+
+/-- **T2 with captures.** A completed step removes a value node's entry from `temp_values`,
+or takes it out of the capture environment, only if nothing in the rest of the plan and no
+requested output uses it. -/
+theorem c02_caps_T2 {V : Type} {ops : Ops V} {r : Run V} {st st' : St V} {i : Nat}
+    {tr : StepTrace} {total : Nat → Nat} {rest outs : List Nat} (hwf : WF r)
+    (h : step ops r st i = .ok (st', tr)) (hb : RcBounded st.rc)
+    (hinv : RcInv r.g total (i :: rest) outs st.rc) (x : Nat) (hx : isValue r.g x = true)
+    (hrem : (st.temps x ≠ none ∧ st'.temps x = none) ∨ (st.caps x ≠ none ∧ st'.caps x = none)) :
+    uses r.g rest outs x = 0 :=
+  step_removes_only_dead hwf.fixed h hb hinv x hx hrem
 
 end RtenVerif.Executor
